@@ -264,7 +264,7 @@ func Enter(fn int) {
 		g.DeepFn = fn
 	}
 	if t.depth > g.cfg.DepthBudget && g.cfg.DepthBudget > 0 && !g.aborted {
-		g.fail(BudgetExceeded{Kind: "depth", Fn: fnName(fn)})
+		g.fail(BudgetExceeded{Kind: "depth", Fn: t.commonestFrame()})
 	}
 	g.tick(t, uint64(fn)|1<<40, fn, true)
 }
@@ -316,6 +316,23 @@ func (t *Task) busiestFrame() string {
 		return "?"
 	}
 	return fnName(t.frames[best].fn)
+}
+
+// commonestFrame names the function with the most live activations: the one that recurses.
+func (t *Task) commonestFrame() string {
+	cnt := map[int]int{}
+	best, bn := -1, 0
+	for i := range t.frames {
+		f := t.frames[i].fn
+		cnt[f]++
+		if cnt[f] > bn || (cnt[f] == bn && f < best) {
+			best, bn = f, cnt[f]
+		}
+	}
+	if best < 0 {
+		return "?"
+	}
+	return fnName(best)
 }
 
 func (g *Group) fail(v any) {
